@@ -65,6 +65,8 @@ TEMPLATES = [
     ["run_sim", "sampled_sims_no_uncertainty"],
     ["build", "pickle", "combined_scenario_run", "process_copy", "process_orig"],
     ["program_scenario_run", "run_sim", "program_scenario_run"],
+    ["build", "deepcopy", "adjust_copy", "process_orig"],
+    ["build", "dcp", "adjust_copy", "process_orig", "run_sim"],
     ["build", "program_scenario_run", "process_orig", "program_scenario_run"],
 ]
 
@@ -103,6 +105,9 @@ def make_config(at, P, variant):
         if len(names) > 1:
             sp1 = float(progset.programs[names[1]].spend_data.interpolate(start + 1.5)[0]) if progset.programs[names[1]].spend_data.has_data else 100.0
             alloc[names[1]] = at.TimeSeries([start + 1.5, start + 3.0], [0.5 * sp1, 2.0 * sp1])
+        if len(names) > 2:
+            sp2 = float(progset.programs[names[2]].spend_data.interpolate(start + 1.5)[0]) if progset.programs[names[2]].spend_data.has_data else 100.0
+            alloc[names[2]] = at.TimeSeries(assumption=0.8 * sp2)  # a constant-only series (no year-specific points)
         instr = at.ProgramInstructions(start_year=start + 1.5, stop_year=start + 4.5, alloc=alloc)
     elif variant == "coverage":
         progset = P.progsets[0]
@@ -447,6 +452,19 @@ def run(ch, idx, tier):
                 Mc = pickle.loads(pickle.dumps(M))
             elif op == "dcp":
                 Mc = sc.dcp(M)
+            elif op == "adjust_copy":
+                # what an optimisation does to its private copy of a built model: new spending points entered into the
+                # copy's own instructions (and parameters scaled) - the original model and the caller's objects are not involved
+                if Mc is not None and Mc.program_instructions is not None:
+                    for ts_ in list(Mc.program_instructions.alloc.values()) + list(Mc.program_instructions.capacity.values()) + list(Mc.program_instructions.coverage.values()):
+                        if isinstance(ts_.t, list):
+                            ts_.insert(float(Mc.t[-1]) - 1.0, 7.0)
+                    if Mc.progset is not None:
+                        for prog_ in Mc.progset.programs.values():
+                            for ts_ in (prog_.unit_cost, prog_.capacity_constraint, prog_.saturation):
+                                if isinstance(ts_.t, list):
+                                    ts_.insert(float(Mc.t[-1]) - 1.0, 0.7)
+                    bump("probe:copy_of_built_model_adjusted")
             elif op == "process_orig":
                 M.process()
                 R = at.Result(M, parset)
